@@ -759,4 +759,5 @@ def extra(ctx):
                                      input=runner.sx.to_text(c["input"])))
     return dict(hypothesis_cases_checked=checked, hypothesis_refutations=bad,
                 known_finding_hits_outside_the_witnesses=tolerated,
-                buffered_remaining_data_aliasing_observed=s2.ALIASED[0])
+                buffered_remaining_data_aliasing_observed=s2.ALIASED[0],
+                except_tables_obtained_by=dict(c06params.METHODS))
